@@ -60,6 +60,12 @@ CLAIMS = {
         'lower-cases, validates method == iota / 32-byte prefixed-hex tag component / network component and removes exactly the default network; component accessors recompose the method id.',
    note='Trusted as C01. Outside: to_lowercase / prefix_hex internals, the generic parser (C10), equality <=> (network, tag bytes) is argued from the normal form.',
    technique=TECH_M, ref='DESIGN.md section 2 C17'),
+ 'C18': dict(
+   text='M kernels over all presence patterns: per-family to_public drops exactly the private members and keeps the public ones, is_public iff no private member, '
+        'family dispatch, kty/params coherence in new/from_params/set_kty/set_params, idempotence of the projection on key_ops (closure evaluated symbolically twice), '
+        'thumbprint template = RFC 7638/8037 required members in lexicographic order, VerificationMethod::from_builder rejects non-public JWKs.',
+   note='Trusted as C01. Outside: serde untagged deserialisation, SHA-256, generated keys, member values.',
+   technique=TECH_M, ref='DESIGN.md section 2 C18'),
  'C16': dict(
    text='Binding audit of validate_key_binding_jwt (171 blocks, 100+ paths: typ, holder key in scope, signature, sd_hash, nonce, aud, iat window, no reachable panic), '
         'SD-JWT verify_signature (signature before disclosures, decoded claims feed the credential, issuer == kid DID) and validate_credential (same units as plain JWTs).',
